@@ -294,8 +294,23 @@ func (env *CEnv) eval(e *CExpr) V {
 	case "index":
 		x := env.eval(e.Args[0])
 		i := coerce(env.eval(e.Args[1]), 64, true)
+		if env.prove && i.K == KBV && i.W == 64 && !env.st.inLate {
+			// index terms of goals are instantiation candidates for earlier quantified assumptions
+			env.st.addPool(64, env.st.define("idx", sortBV(64), i.T))
+		}
 		if x.K == KSeq {
 			return vBV(x.Seq.Byte(resize(i.T, i.W, 64, i.Signed)), 8, false)
+		}
+		if x.K == KTuple && len(x.Fs) == 3 && x.Typ != nil {
+			if sl, ok := x.Typ.Underlying().(*types.Slice); ok && !isByte(sl.Elem()) {
+				// element of a typed slice: a typed load at ptr + i*size
+				es := uint64(sizeof(sl.Elem()))
+				off := app("bvmul", resize(i.T, i.W, 64, i.Signed), bvLit(es, 64))
+				if v, _, ok := litVal(i.T); ok {
+					off = bvLit(v*es, 64)
+				}
+				return env.loadTyped(vPtr(bvadd(x.Fs[0].T, off), x.Fs[0].Prov), sl.Elem())
+			}
 		}
 		if x.K == KTuple && len(x.Fs) >= 2 && x.Fs[0].K == KPtr {
 			a := bvadd(x.Fs[0].T, resize(i.T, i.W, 64, i.Signed))
@@ -359,6 +374,15 @@ func (env *CEnv) field(x V, name string) V {
 						addr := vPtr(bvadd(x.T, bvLit(uint64(fieldOffset(st, i)), 64)), x.Prov)
 						return env.loadTyped(addr, st.Field(i).Type())
 					}
+				}
+			}
+		}
+	}
+	if x.K == KTuple && x.Typ != nil {
+		if tt, ok := x.Typ.(*types.Tuple); ok {
+			for i := 0; i < tt.Len() && i < len(x.Fs); i++ {
+				if tt.At(i).Name() == name || fmt.Sprintf("r%d", i) == name {
+					return x.Fs[i]
 				}
 			}
 		}
@@ -703,6 +727,12 @@ func (env *CEnv) call(e *CExpr) V {
 		}
 		bound, _ := strconv.Atoi(e.Args[3].Tok)
 		cs := []string{app("bvule", sq.Len, bvLit(uint64(bound), 64))}
+		if env.prove && env.pol && !env.st.inLate {
+			base := env.st.define("atoff", sortBV(64), off.T)
+			for k := 0; k < bound; k++ {
+				env.st.addPool(64, bvadd(base, bvLit(uint64(k), 64)))
+			}
+		}
 		for k := 0; k < bound; k++ {
 			kk := bvLit(uint64(k), 64)
 			cs = append(cs, implies(app("bvult", kk, sq.Len), eq(s.Byte(bvadd(off.T, kk)), sq.Byte(kk))))
@@ -868,6 +898,24 @@ func (env *CEnv) call(e *CExpr) V {
 		}
 		// Go conversion: extension is decided by the source signedness
 		return vBV(resize(v.T, v.W, w, v.Signed), w, signed)
+	case "boxed":
+		// boxed(pkg.Type, v1, v2, ...): an interface value holding a struct of that type with these field values
+		if len(e.Args) < 1 {
+			cfail("boxed(Type, values...)")
+		}
+		tname := e.Args[0].String()
+		nt := env.st.x.namedType(tname)
+		if nt == nil {
+			cfail("boxed: unknown type %s", tname)
+		}
+		var fs []V
+		for i := 1; i < len(e.Args); i++ {
+			fs = append(fs, arg(i))
+		}
+		inner := V{K: KTuple, Fs: fs, Typ: nt}
+		data := vPtr(bvLit(0x1000, 64), nil)
+		data.Box = &inner
+		return V{K: KTuple, Fs: []V{vPtr(env.st.x.typeID(nt), nil), data}}
 	case "tid", "rtype":
 		// tid(T): the type word of an interface holding a value of basic type T;
 		// rtype(T): reflect.TypeOf of such a value
@@ -1103,7 +1151,9 @@ func (env *CEnv) ghostCall(e *CExpr) V {
 		st.assume(t)
 	}
 	if len(results) != 1 {
-		return vTuple(results...)
+		t := vTuple(results...)
+		t.Typ = sig.Results()
+		return t
 	}
 	return results[0]
 }
@@ -1121,7 +1171,11 @@ func (env *CEnv) loadTyped(addr V, t types.Type) V {
 			if ls.ByteElem {
 				return vPtr(t, &Prov{Space: "B", Region: "owned"})
 			}
-			return vPtr(t, &Prov{Space: "H", Region: "heap"})
+			reg := "heap"
+			if addr.Prov != nil && addr.Prov.Region == "meta" {
+				reg = "meta"
+			}
+			return vPtr(t, &Prov{Space: "H", Region: reg})
 		}
 		return vBV(env.loadN(space, a, ls.W/8), ls.W, ls.Signed)
 	})
